@@ -15,7 +15,7 @@ VARIANTS = [
          old="            if state == TrialState.RUNNING and trial.state != TrialState.WAITING:\n                return False\n\n            trial.state = state",
          new="            if state == TrialState.RUNNING and trial.state != TrialState.WAITING:\n                return True\n\n            trial.state = state"),
     dict(id="c04-rdb-no-cas", prop="C04", file=RDB, expect="R04.1",
-         old="                if state == TrialState.RUNNING and trial.state != TrialState.WAITING:\n                    return False\n\n                trial.state = state", new="                trial.state = state"),
+         old="                if state == TrialState.RUNNING and trial.state != TrialState.WAITING:\n                    return False\n\n                if values is not None:", new="                if values is not None:"),
     dict(id="c04-rdb-no-finished-guard", prop="C04", file=RDB, expect="R04.1",
          old="                trial = models.TrialModel.find_or_raise_by_id(trial_id, session, for_update=True)\n                self.check_trial_is_updatable(trial_id, trial.state)\n",
          new="                trial = models.TrialModel.find_or_raise_by_id(trial_id, session, for_update=True)\n"),
@@ -132,10 +132,16 @@ VARIANTS += [
 RDB4 = "optuna/storages/_rdb/storage.py"
 VARIANTS += [
     dict(id="c04-rdb-claim-row-not-locked", prop="C04", file=RDB4, expect="R04.1",
-         old="                trial = models.TrialModel.find_or_raise_by_id(trial_id, session, for_update=True)\n                self.check_trial_is_updatable(trial_id, trial.state)\n\n                if values is not None:\n                    for objective, v in enumerate(values):",
-         new="                trial = models.TrialModel.find_or_raise_by_id(trial_id, session)\n                self.check_trial_is_updatable(trial_id, trial.state)\n\n                if values is not None:\n                    for objective, v in enumerate(values):"),
+         old="                trial = models.TrialModel.find_or_raise_by_id(trial_id, session, for_update=True)\n                self.check_trial_is_updatable(trial_id, trial.state)\n\n                if state == TrialState.RUNNING and trial.state != TrialState.WAITING:",
+         new="                trial = models.TrialModel.find_or_raise_by_id(trial_id, session)\n                self.check_trial_is_updatable(trial_id, trial.state)\n\n                if state == TrialState.RUNNING and trial.state != TrialState.WAITING:"),
     # a statement-level compare-and-set makes the known finding go away (nothing else may fire)
     dict(id="c04-neutral-rdb-statement-level-cas", prop="C04", file=RDB4, expect=None,
-         old="                if state == TrialState.RUNNING and trial.state != TrialState.WAITING:\n                    return False\n\n                trial.state = state\n",
-         new="                if state == TrialState.RUNNING and trial.state != TrialState.WAITING:\n                    return False\n\n                n_rows = session.query(models.TrialModel).filter(models.TrialModel.trial_id == trial_id, models.TrialModel.state == trial.state).update({\"state\": state})\n                if n_rows == 0:\n                    return False\n                trial.state = state\n"),
+         old="                        self._set_trial_value_without_commit(session, trial_id, objective, v)\n\n                trial.state = state\n",
+         new="                        self._set_trial_value_without_commit(session, trial_id, objective, v)\n\n                n_rows = session.query(models.TrialModel).filter(models.TrialModel.trial_id == trial_id, models.TrialModel.state == trial.state).update({\"state\": state})\n                if n_rows == 0:\n                    return False\n                trial.state = state\n"),
+]
+
+VARIANTS += [
+    dict(id="c04-inmem-template-shallow-copy", prop="C04", file=IM4, expect="R04.6",
+         old="                trial = copy.deepcopy(template_trial)\n",
+         new="                trial = copy.copy(template_trial)\n"),
 ]
